@@ -175,7 +175,7 @@ theorem assignElems_fr {n : Sizes} {g : Grows} (elems : List (Option Int × Byte
     intro h h' list indexes l' ix' index hn ol oi e
     simp only [assignElems] at e
     split at e
-    · cases e; exact ⟨HeapFr.refl hn, ol, oi⟩
+    · exact ih hn ol oi e
     · split at e
       · cases e
       · next r hr =>
